@@ -159,7 +159,7 @@ Lemma sect_pc_all s e i :
 Proof.
   intros Hi Hk Hne.
   assert (Keep : Qkp i (length (conss s)) CKAccess (cpcv (getc s i)) (conss s)) by (unfold Qkp; auto).
-  destruct e as [c0|k|r|a|g|a|g en|g v hr er|g|k|c0|c0|c0|c0 res|c0]; try (left; apply sect_pc_container; exact I); cbn [step].
+  destruct e as [c0|k|r|a|g|a|g en|g v hr er|g|k|c0|c0|c0|c0 res|c0|c0]; try (left; apply sect_pc_container; exact I); cbn [step].
   - (* removeRef section *)
     unfold release_section. destruct (nth_error (relacts s) a) as [x|]; [|now left]. destruct (ra_pc x); [|now left].
     set (s1 := remove_ref _ (ra_ref x)).
@@ -280,7 +280,7 @@ Proof.
   assert (H : Qgn i a0 (conss s)) by (left; reflexivity).
   change (Qgn i a0 (conss (step repaired s e))).
   pose proof (Qgn_gone i a0) as QG.
-  destruct e as [c0|k|r|a|g|a|g en|g v hr er|g|k|c0|c0|c0|c0 res|c0]; cbn [step].
+  destruct e as [c0|k|r|a|g|a|g en|g v hr er|g|k|c0|c0|c0|c0 res|c0|c0]; cbn [step].
   - unfold set_context. destruct (Nat.eqb (kctx s) c0); [exact H|]. cbn [fst]. now apply (G_start_resolve _ QG).
   - apply Qgn_add_ref; [|exact H]. intros c Hc. destruct k as [|[|k]]; discriminate.
   - destruct (rkind (nth r (refs s) ref0)); try exact H; unfold release_call; now rewrite conss_release_call_by.
